@@ -95,7 +95,7 @@ func (in *vhIn) build() {
 //	P4: phase4.Alg value (1 VAlign 2 B&K 3 NS 4 SinkColoring 5 PackRight)   BK: forced B&K layout (-1 none)
 //	P5: phase5.Alg value (0 none 1 straight 2 polyline 3 ortho 4 splines)
 //	SZ: 0 no sizes, 1 fixed size, 2 per-node size for every node, 3 fixed + per-node for even nodes,
-//	    4 per-node widths with zero heights
+//	    4 per-node widths with zero heights, 5 concrete heterogeneous per-node sizes
 //	VIRT: 1 = WithOutputVirtualNodes(true)     INTSZ: 1 = sizes/spacings are integers (NS positioner)
 //	NSFIX / LSFIX >= 0: concrete NodeSpacing / LayerSpacing instead of symbolic ones
 func vhOptions(in *vhIn, minLS float64) {
@@ -107,9 +107,9 @@ func vhOptions(in *vhIn, minLS float64) {
 	intsz := vhConst("INTSZ") == 1
 	real := func(name string, lo float64) float64 {
 		if intsz {
-			return float64(vhInt(name, int(lo), vhMaxSize))
+			return float64(vhInt(name, int(lo), vhConst("MAXSZ")))
 		}
-		return vhReal(name, lo, vhMaxSize)
+		return vhReal(name, lo, float64(vhConst("MAXSZ")))
 	}
 	in.w = make([]float64, in.n)
 	in.h = make([]float64, in.n)
@@ -125,6 +125,12 @@ func vhOptions(in *vhIn, minLS float64) {
 			in.w[i] = real("w", 0)
 			in.listed[i] = true
 		}
+	case 5:
+		// concrete heterogeneous sizes
+		for i := 0; i < in.n; i++ {
+			in.w[i], in.h[i] = float64(10+4*i), float64(8+2*(i%3))
+			in.listed[i] = true
+		}
 	case 2, 3:
 		if in.sz == 3 {
 			in.fw, in.fh = real("fw", 0), real("fh", 0)
@@ -137,7 +143,7 @@ func vhOptions(in *vhIn, minLS float64) {
 			}
 		}
 	}
-	in.ns = real("ns", 0)
+	in.ns = real("ns", float64(vhConst("MINNS")))
 	in.ls = real("ls", minLS)
 	if v := vhConst("NSFIX"); v >= 0 {
 		in.ns = float64(v)
